@@ -2,7 +2,7 @@
 ranks."""
 import ast
 
-from sa.helpers import (mkflow, spec, code, one, calls, bind_call, param_env,
+from sa.helpers import (the_return, mkflow, spec, code, one, calls, bind_call, param_env,
                         fmt, atom_of, unparse, walk_no_nested)
 from sa.index import AnalysisError, Index, FuncInfo
 from sa.algebra import RF, Slice, dotted
@@ -448,7 +448,7 @@ for V_x in V_s:
                 why.append('deviation term %s' % fmt(fl, t))
         if len(dev) != 2:
             why.append('%d deviation statements' % len(dev))
-        r = one(fl.of('return'), 'return')
+        r = the_return(fl)
         ra = atom_of(fl, r.value)
         if ra is None or ra.head != 'tuple' or not isinstance(r.value_ast.elts[0], ast.Name) or \
                 r.value_ast.elts[0].id != 'average' or unparse(r.value_ast.elts[1]) != 'squares / size':
